@@ -139,12 +139,17 @@ def coq_assigns(L):
     return "[%s]" % "; ".join("[%s]" % "; ".join(coq_bool(b) for b in a) for a in L)
 
 
+_leaf = [0]
+
+
 def gen_formula(rng, budget, nv, depth=0):
     """random formula with at most `budget` nodes over variables 0..nv-1"""
-    if budget <= 1 or (depth > 0 and rng.random() < 0.12):
+    if budget <= 1 or (depth > 0 and rng.random() < 0.06):
         if rng.random() < 0.07:
             return ("c", rng.randint(0, 1))
-        return ("v", rng.randrange(nv))
+        _leaf[0] += 1
+        # half of the leaves walk through the variables in turn so that formulas over 4-5 distinct variables are common
+        return ("v", (_leaf[0] % nv) if rng.random() < (0.8 if nv >= 4 else 0.4) else rng.randrange(nv))
     r = rng.random()
     if r < 0.13:
         return ("not", gen_formula(rng, budget - 1, nv, depth + 1))
@@ -227,9 +232,10 @@ def run(ctx):
     tries = 0
     while len(singles) < n_single and tries < n_single * 20:
         tries += 1
-        nv = rng.choice([1, 2, 3, 3, 4, 4, 5, 5, 5])
-        f = gen_formula(rng, rng.choice([1, 2, 3, 4, 5, 6, 7, 8, 8, 9, 9, 10, 10, 11, 11, 12, 12, 12]), nv)
-        if size(f) > 12: continue
+        nv = rng.choice([1, 2, 3, 4, 4, 5, 5, 5, 5])
+        budget = rng.choice([1, 2, 3, 4, 5, 6, 7, 8, 8, 9, 9, 10, 10, 11, 11, 12, 12, 12])
+        f = gen_formula(rng, budget, nv)
+        if size(f) > 12 or size(f) < budget - 2: continue
         key = to_prolog(f)
         if key in seen: continue
         seen.add(key)
@@ -244,7 +250,7 @@ def run(ctx):
     tries = 0
     while len(pairs) < n_pairs and tries < n_pairs * 20:
         tries += 1
-        nv = rng.choice([2, 3, 3, 4, 4, 5, 5])
+        nv = rng.choice([2, 3, 4, 4, 5, 5, 5])
         g = gen_formula(rng, rng.randint(1, 7), nv)
         f = gen_formula(rng, rng.randint(1, 7), nv)
         if size(g) + size(f) + 1 > 15: continue
@@ -291,7 +297,7 @@ def run(ctx):
     dist = {"connectives": {}, "nvars": {}, "size": {}, "sat": 0, "unsat": 0, "taut": 0, "contingent": 0, "models_total": 0,
             "incremental_first_unsat": 0, "incremental_conj_unsat": 0, "incremental_taut_under": {}}
     nontrivial = set()
-    seq_checks = []
+    seq_checks, seq_meta = [], []
     n_obs = 0
 
     def bad_obs(kind, query, ans):
@@ -337,6 +343,7 @@ def run(ctx):
                           "models %s %s" % (tl, c))])
             if len(seq_checks) < n_seq:
                 seq_checks.append("check_label_seq %s %s %s" % (c, tl, Lc))
+                seq_meta.append((qs[3], json.dumps([[int(b) for b in a] for a in L])))
     for i in range(0, len(pairs), B):
         chunk = pairs[i:i + B]
         rs = results("p%d" % i, 4 * len(chunk))
@@ -407,6 +414,7 @@ def run(ctx):
     sbad, serrs = core.coq_eval_bools(ctx.prop, IMPORTS, seq_checks, chunk=max(50, -(-len(seq_checks) // max(1, core.NPROC))), tag="seq")
     dist["labeling_sequences_compared"] = len(seq_checks)
     dist["labeling_sequences_in_index_order"] = len(seq_checks) - len(sbad) if not serrs else "coq error"
+    dist["labeling_sequences_in_other_order"] = [{"query": seq_meta[i][0], "impl": seq_meta[i][1]} for i in sbad[:5]]
     samples = []
     for k in range(0, len(meta), max(1, len(meta) // 10)):
         m = meta[k][k % 4]
